@@ -219,6 +219,13 @@ impl Repository {
             .context(error::TransportSnafu { url })?;
         file.write_all(&root_file_data)
             .await
+            .context(error::CacheFileWriteSnafu {
+                path: outpath.clone(),
+            })?;
+        // `tokio::fs::File` completes writes in the background; without flushing, the file can
+        // still be incomplete (and a write error go unnoticed) when this function returns.
+        file.flush()
+            .await
             .context(error::CacheFileWriteSnafu { path: outpath })
     }
 
